@@ -346,7 +346,11 @@ fn key_lists(tier: Tier) -> Vec<Vec<usize>> {
                 let names: BTreeSet<&str> = [a, b, c].iter().map(|k| KEYS[*k].0).collect();
                 let repeats = names.len() < 3;
                 let failing = [a, b, c].iter().filter(|k| !matches!(want(**k), Want::Content(_))).count();
-                if tier == Tier::Thorough || (repeats && failing == 0 && KEYS[a].0 == "test:a" && (a + 2 * b + 3 * c) % 8 == 0) {
+                // quick also takes every list of two existing keys that share a package name followed
+                // by one failing key (the error must name that key and carry ITS span, whatever
+                // bookkeeping the repeated name needs)
+                let dup_then_failing = failing == 1 && !matches!(want(c), Want::Content(_)) && KEYS[a].0 == KEYS[b].0;
+                if tier == Tier::Thorough || dup_then_failing || (repeats && failing == 0 && KEYS[a].0 == "test:a" && (a + 2 * b + 3 * c) % 8 == 0) {
                     out.push(vec![a, b, c]);
                 }
             }
@@ -477,7 +481,7 @@ fn main() {
     cov.insert("distinct_nontrivial".into(), json!(lists_n));
     cov.insert(
         "rule".into(),
-        json!("states = ordered lists of distinct keys (all of length 1-2; length 3: quick = an eighth of the all-existing lists that repeat the name test:a, thorough = all) over a 9-key universe (one package at three versions + unversioned + a missing version, two other packages, a missing package); transitions = executions: every permutation of download completion order per list, enforced through the H2 gates one download at a time, plus one free-running execution per list; oracle: result has exactly the requested keys, each with the content published under that name and version (latest when unversioned), a missing package/version is reported with the corresponding error naming the key and carrying that key's span, same result for every completion order"),
+        json!("states = ordered lists of distinct keys (all of length 1-2; length 3: quick = an eighth of the all-existing lists that repeat the name test:a plus every list of two existing keys sharing a name followed by a failing key, thorough = all) over a 9-key universe (one package at three versions + unversioned + a missing version, two other packages, a missing package); transitions = executions: every permutation of download completion order per list, enforced through the H2 gates one download at a time, plus one free-running execution per list; oracle: result has exactly the requested keys, each with the content published under that name and version (latest when unversioned), a missing package/version is reported with the corresponding error naming the key and carrying that key's span, same result for every completion order"),
     );
     ctx.finish(
         cov,
